@@ -16,16 +16,24 @@ def stream_run(rng, kind, nrows, B, batch, pause_at, depeof, width):
     d = ls.Driver(rng, buffer_size=B, batch=batch)
     d.handshake(True, depeof); d.decide("ASuccess"); d.app_result("void")
     items = [("row", width)] * nrows
+    maxpull = 0
+
+    def counted(fn, *a, **k):
+        # rows pulled while the server handles ONE event (one stretch without giving the loop back to other connections)
+        nonlocal maxpull
+        b0 = d.source.pulled if d.source is not None else 0
+        fn(*a, **k)
+        maxpull = max(maxpull, (d.source.pulled if d.source is not None else 0) - b0)
+
     if kind == "text":
-        d.payload(("query",)); d.app_result("set", ncols=1, items=items)
+        d.payload(("query",)); counted(d.app_result, "set", ncols=1, items=items)
     elif kind == "binary":
-        d.payload(("prepare", 0)); d.payload(("execute", 0, False)); d.app_result("set", ncols=1, items=items)
+        d.payload(("prepare", 0)); d.payload(("execute", 0, False)); counted(d.app_result, "set", ncols=1, items=items)
     else:
-        d.payload(("prepare", 0)); d.payload(("execute", 0, True)); d.app_result("set", ncols=1, items=items)
-        d.payload(("fetch", 0, nrows + 1))
+        d.payload(("prepare", 0)); d.payload(("execute", 0, True)); counted(d.app_result, "set", ncols=1, items=items)
+        counted(d.payload, ("fetch", 0, nrows + 1))
     worst = 0
     steps = 0
-    maxpull = 0
     while d.blocked() not in ("read", "done") and steps < 10 * nrows + 50:
         steps += 1
         b = d.blocked()
@@ -68,7 +76,7 @@ def stream_run(rng, kind, nrows, B, batch, pause_at, depeof, width):
     return d, w, worst, maxpull
 
 
-def witness_ping(rng, B, batch, nrows):
+def witness_ping(rng, B, batch, nrows, kind="text"):
     """while connection 1 streams from a source that never suspends, connection 2's PING is answered within batch+1 rows"""
     env = impl.Env(own_sleep=False)   # real asyncio.sleep(0): plain FIFO scheduling
     try:
@@ -88,12 +96,22 @@ def witness_ping(rng, B, batch, nrows):
         for c in (a, b):
             c.take(); c.feed(cl.frame(cl.handshake_response(user=b"u"), 1)); c.take()
         # start the long stream, then immediately a PING on the other connection, then count
-        a.reader.feed_data(cl.frame(bytes([cl.COM_QUERY]) + b"SELECT a FROM t", 0))
+        if kind == "text":
+            a.reader.feed_data(cl.frame(bytes([cl.COM_QUERY]) + b"SELECT a FROM t", 0))
+        else:
+            a.feed(cl.frame(bytes([cl.COM_STMT_PREPARE]) + b"SELECT a FROM t", 0))
+            sid = cl.split_raw(a.take())[0][1][1:5]
+            cursor = 1 if kind == "fetch" else 0
+            a.reader.feed_data(cl.frame(bytes([cl.COM_STMT_EXECUTE]) + sid + bytes([cursor]) + (1).to_bytes(4, "little"), 0))
+            if kind == "fetch":
+                env.settle(); a.take()
+                a.reader.feed_data(cl.frame(bytes([cl.COM_STMT_FETCH]) + sid + (nrows + 1).to_bytes(4, "little"), 0))
+        start = pulled[0]
         b.reader.feed_data(cl.frame(bytes([cl.COM_PING]), 0))
         its = 0
         while not b.take() and its < 100000:
             env.loop.call_soon(env.loop.stop); env.loop.run_forever(); its += 1
-        at = pulled[0]
+        at = pulled[0] - start
         env.settle()
         return at
     finally:
@@ -154,10 +172,14 @@ def run(ctx: core.Ctx):
         if c:
             disagreements.append(c)
     # fairness across connections with the real batch size
-    at = witness_ping(rng, 32768, 10000, 35000)
-    ctx.evals += 1
-    if at > 10001 + 1:
-        witness = witness or dict(kind="starvation", problem=f"PING of another connection answered only after {at} rows of a non-suspending stream")
+    at = 0
+    for kind in ("text", "binary", "fetch"):
+        n = witness_ping(rng, 32768, 10000, 35000, kind)
+        at = max(at, n)
+        ctx.evals += 1
+        if n > 10001 + 1:
+            witness = witness or dict(kind="starvation", protocol=kind,
+                                      problem=f"PING of another connection answered only after {n} rows of a non-suspending stream")
     # inferred column types: the recorded open finding
     peek = inferred_peek_probe()
     ctx.evals += 1
